@@ -20,7 +20,24 @@ func genAddr(r *hlib.Rng) string {
 	}
 }
 
+// earlier deposits of the current history, so that identical deposits (equal leaf values) occur
+var prevBridges []Ev
+
 func genBridge(r *hlib.Rng, dc uint32, pos uint64, tag uint64) Ev {
+	if len(prevBridges) > 0 && r.Intn(4) == 0 {
+		e := prevBridges[r.Intn(len(prevBridges))]
+		e.Pos, e.Tag, e.DC = pos, tag, dc
+		return e
+	}
+	e := genBridge0(r, dc, pos, tag)
+	prevBridges = append(prevBridges, e)
+	if len(prevBridges) > 8 {
+		prevBridges = prevBridges[1:]
+	}
+	return e
+}
+
+func genBridge0(r *hlib.Rng, dc uint32, pos uint64, tag uint64) Ev {
 	e := Ev{T: "bridge", Pos: pos, Tag: tag, DC: dc, LT: uint8(r.Intn(2))}
 	e.ONet = hlib.Pick(r, uint32(0), 1, 2, 0xffffffff, r.U32())
 	e.DNet = hlib.Pick(r, uint32(0), 1, 2, 0xffffffff, r.U32())
@@ -110,7 +127,19 @@ func genC08(r *hlib.Rng, n int) In {
 	h := &hist{r: r, kinds: []string{"claim"}, pBridg: 90}
 	in := In{Prop: "c08", Proofs: "all"}
 	for len(in.Ops) < n {
-		in.Ops = append(in.Ops, h.block(3))
+		blk := h.block(3)
+		nb := 0
+		for _, e := range blk.Events {
+			if e.T == "bridge" {
+				nb++
+			}
+		}
+		if nb > 0 && r.Intn(5) == 0 { // a storage fault while the node table is written, then the block again
+			fo := blk
+			fo.Fault = &Fault{Table: "rht", K: r.Intn(nb)}
+			in.Ops = append(in.Ops, fo)
+		}
+		in.Ops = append(in.Ops, blk)
 		switch r.Intn(8) {
 		case 0:
 			in.Ops = append(in.Ops, Op{K: "restart"})
@@ -147,7 +176,7 @@ func liveBlocks(ops []Op) []Op {
 	for _, op := range ops {
 		switch op.K {
 		case "block":
-			if op.Fault == nil {
+			if op.Fault == nil && !isGapBlock(live, op) {
 				live = append(live, op)
 			}
 		case "reorg":
@@ -161,6 +190,24 @@ func liveBlocks(ops []Op) []Op {
 		}
 	}
 	return live
+}
+
+// a block whose first bridge event does not carry the next deposit count is refused by the node (it halts)
+func isGapBlock(live []Op, op Op) bool {
+	var n uint32
+	for _, l := range live {
+		for _, e := range l.Events {
+			if e.T == "bridge" {
+				n++
+			}
+		}
+	}
+	for _, e := range op.Events {
+		if e.T == "bridge" {
+			return e.DC != n
+		}
+	}
+	return false
 }
 
 func genC04(r *hlib.Rng, n int, destructive bool) In {
@@ -178,20 +225,38 @@ func genC04(r *hlib.Rng, n int, destructive bool) In {
 		for i := 0; i < 1+r.Intn(n); i++ {
 			in.Ops = append(in.Ops, h.block(4))
 		}
+		halting := r.Intn(4) == 0 && len(liveBlocks(in.Ops)) > 0
+		if halting {
+			// the node sees a block of the new fork before the reorg is noticed: its deposit count does not follow => halt.
+			// (the reorg below then removes at least one recorded block, which is what clears the halt: C14)
+			h.num++
+			in.Ops = append(in.Ops, Op{K: "block", Num: h.num + 1000, Events: []Ev{genBridge0(r, h.dc+1+uint32(r.Intn(3)), 1, 0)}})
+		}
 		// reorg point: first block, somewhere, tip, above tip
 		live := liveBlocks(in.Ops)
+		if len(live) == 0 {
+			continue
+		}
 		var b uint64
-		switch r.Intn(5) {
+		choice := r.Intn(5)
+		if halting && choice == 1 {
+			choice = 2
+		}
+		tip := live[len(live)-1].Num
+		switch choice {
 		case 0:
 			b = live[0].Num
 		case 1:
 			b = h.num + 1 + uint64(r.Intn(3)) // above the tip: identity
 		case 2:
-			b = h.num
+			b = tip
 		default:
 			b = live[r.Intn(len(live))].Num + uint64(r.Intn(2))
 		}
-		in.Ops = append(in.Ops, Op{K: "reorg", B: b})
+		in.Ops = append(in.Ops, Op{K: "reorg", B: b, Busy: r.Intn(3) == 0})
+		if halting && b > tip {
+			b = tip
+		}
 		if r.Intn(3) == 0 { // nested / repeated reorg
 			in.Ops = append(in.Ops, Op{K: "reorg", B: b + uint64(r.Intn(3))})
 		}
@@ -298,6 +363,46 @@ func genC07(r *hlib.Rng, n int) In {
 	return in
 }
 
+// blocks handed, already buffered, to the real EVMDriver; one of them meets a transient storage fault
+func genC07Drive(r *hlib.Rng, n int) In {
+	h := &hist{r: r, kinds: []string{"claim", "tm"}, pBridg: 55}
+	in := In{Prop: "c07", Proofs: "some"}
+	var blocks, clean []Op
+	for i := 0; i < n; i++ {
+		b := h.block(3)
+		blocks = append(blocks, b)
+		clean = append(clean, b)
+	}
+	faultAt := -1
+	// candidate blocks: those with at least one event of a faultable kind
+	var cands []int
+	for i, b := range blocks {
+		if len(b.Events) > 0 {
+			cands = append(cands, i)
+		}
+	}
+	if len(cands) > 0 {
+		faultAt = hlib.Pick(r, cands...)
+		b := blocks[faultAt]
+		tables := []string{"block"}
+		for _, e := range b.Events {
+			switch e.T {
+			case "bridge":
+				tables = append(tables, "root", "rht", "bridge")
+			case "claim":
+				tables = append(tables, "claim")
+			case "tm":
+				tables = append(tables, "tm")
+			}
+		}
+		b.Fault = &Fault{Table: hlib.Pick(r, tables...), K: 0}
+		blocks[faultAt] = b
+	}
+	in.Ops = []Op{{K: "drive", Blocks: blocks, FaultAt: faultAt}, snapOp()}
+	in.TwinOps = []Op{{K: "drive", Blocks: clean, FaultAt: -1}, snapOp()}
+	return in
+}
+
 func generate(prop string, f *hlib.Flags) []In {
 	r := hlib.NewRng(f.Seed)
 	var ins []In
@@ -310,7 +415,11 @@ func generate(prop string, f *hlib.Flags) []In {
 		case "c04":
 			ins = append(ins, genC04(r, 6, i%5 == 4))
 		case "c07":
-			ins = append(ins, genC07(r, 3+r.Intn(6)))
+			if i%3 == 2 {
+				ins = append(ins, genC07Drive(r, 3+r.Intn(5)))
+			} else {
+				ins = append(ins, genC07(r, 3+r.Intn(6)))
+			}
 		default:
 			panic("unknown VERIF_PROP " + prop)
 		}
